@@ -37,7 +37,7 @@ pub fn plan(tier: Tier, backend: Backend) -> Plan {
             step_cap: 20_000,
             widths: vec![Width::W8, Width::W64],
             w_full: false,
-            n_depth: if backend == Backend::IrInt || backend == Backend::Inplace { 5 } else { 4 },
+            n_depth: if backend == Backend::IrInt { 5 } else { 4 },
         },
         Tier::Thorough => Plan {
             a_len: 8 + extra,
@@ -110,6 +110,13 @@ pub fn enumerate(p: &Plan, f: &mut dyn FnMut(u64, &'static str, &[u8])) -> u64 {
     for (_, c) in spaces::space_k() {
         f(base, "K", &c);
         base += 1;
+    }
+    // D: nesting families around the 8-bit / 7-bit counter boundaries
+    for n in [1usize, 2, 3, 7, 64, 127, 128, 129, 255, 256, 257, 300] {
+        for c in [spaces::nest_open_close(n), spaces::nest_counted(n), spaces::nest_skipped_then_print(n)] {
+            f(base, "D", &c);
+            base += 1;
+        }
     }
     base
 }
